@@ -48,6 +48,7 @@ NPATS = 3
 LARGE_SIZES = [999, 1000, 1001, 1500]
 SMALL_CHECK = {"quick": list(range(2, 17)), "thorough": list(range(2, 41))}   # exhaustive + full-sum cross-check
 SMALL_REPLAY = [5, 12, 40]
+PRIOR_SIZE = 1000       # the large size at which prior_counts=1 is replayed
 MLE_MAX_N = 12          # builders.mle on the reversible families (its answer is normalize's there); the pure-Python
                         # Prinz iteration needs 3 s per sweep at n = 1000 and has no iteration budget in its
                         # public signature (measured: n = 30: 5 s, n = 60: 63 s, n = 120: 13 min), and it has no
@@ -234,6 +235,8 @@ def large_combos(k, c):
     fast = fam not in SLOW_MIXING
     out = []
     for ci, cont in enumerate(["ndarray"] + FORMATS):
+        if prior and n > 40 and cont == "dok":
+            continue          # dok_matrix + scalar is supported by scipy and yields a dict of n^2 entries: 15 .. 30 s per call
         dts = ["int64"]
         if cont in ("ndarray", "csr") or (ci + k) % 3 == 0 or n <= 40:
             dts.append(DTYPES[1 + (ci + k) % 3])
@@ -282,7 +285,9 @@ def replay_large(arg):
     kind = "dense" if cont == "ndarray" else "sparse"
     pre = "large/%s/" % bname
     bad = []
-    M = make(cont, C, dt)
+    with warnings.catch_warnings():
+        warnings.simplefilter("ignore")          # "DIA matrix with 1997 diagonals is inefficient"
+        M = make(cont, C, dt)
     before, ibefore, btype = dense(M).copy(), internals(M), type(M)
     if bname == "mle":
         t_rtol, t_atol, p_rtol = 1e-5, 1e-8, 1e-5            # the iteration stops on a log-likelihood change of 1e-10
@@ -336,8 +341,8 @@ def large_jobs(ctx, d):
     allp = list(range(1, NPATS + 1))
     jobs, emit = [], []
 
-    def job(name, sizes, pats, tags, emitting, **kw):
-        consts = dict(Sizes=lit(sizes), Families=fams, PatIds=lit(pats), Tags=tags, DenseMax="40",
+    def job(name, sizes, pats, tags, emitting, priors=(0, 1), **kw):
+        consts = dict(Sizes=lit(sizes), Families=fams, PatIds=lit(pats), Priors=lit(priors), Tags=tags, DenseMax="40",
                       Emit="TRUE" if emitting else "FALSE")
         if emitting:
             cfg = core.write_cfg(os.path.join(d, name + ".cfg"), constants=consts, invariants=["EmitInv"])
@@ -357,8 +362,11 @@ def large_jobs(ctx, d):
     for q, n in enumerate(LARGE_SIZES):
         # quick: one pattern per size (rotating with the seed), thorough: all of them
         pats = [1 + (q + ctx.seed) % NPATS] if ctx.tier == "quick" else allp
-        job("lc%d" % n, [n], pats, '{"sparse"}', False, workers=3)
-        job("le%d" % n, [n], pats, '{"sparse"}', True, workers=1)
+        # the container tag and the prior are explored at every small size; here: one tag, and the prior (which
+        # densifies every container, so that no size-dependent path is left) at n = 1000 only
+        priors = (0, 1) if n == PRIOR_SIZE else (0,)
+        job("lc%d" % n, [n], pats, '{"dense"}', False, priors=priors, workers=3)
+        job("le%d" % n, [n], pats, '{"dense"}', True, priors=priors, workers=1)
     return jobs, emit
 
 
@@ -371,8 +379,8 @@ def large_replay(ctx, results):
             if t != "CASE":
                 continue
             key = (p["n"], p["fam"], p["pat"], p["builder"], p["prior"])
-            # the scalar prior densifies every container: one size on each side of the threshold is enough
-            if key in seen or (p["prior"] and p["n"] > 1000):
+            # the scalar prior densifies every container (no size-dependent path left): one large size is enough
+            if key in seen or (p["prior"] and p["n"] > 40 and p["n"] != PRIOR_SIZE):
                 continue
             seen.add(key)
             cases.append(p)
@@ -382,7 +390,10 @@ def large_replay(ctx, results):
     tasks = [t for k, c in enumerate(cases) for t in large_combos(k, c)]
     # the costly calls (dense eigen-decompositions at n ~ 1000 .. 1500) first, so that the pool stays busy
     tasks.sort(key=lambda t: -(cases[t[0]]["n"] * (3 if t[3] and t[4] == "normalize" else 1)))
+    import time
+    t0 = time.time()
     out = core.pmap(replay_large, tasks, chunk=1)
+    wall = round(time.time() - t0, 1)
     per = {}
     for t, bad in zip(tasks, out):
         per.setdefault(t[0], []).extend(bad)
@@ -398,7 +409,8 @@ def large_replay(ctx, results):
                                          % (c["n"], c["fam"], c["pat"]),
                            "how": "builders.%s vs BuildersLarge.tla" % detail.get("builder", c["builder"])}, key=key)
     ctx.notes["large_families"] = {"sizes": sorted({c["n"] for c in cases}), "cases": len(cases), "calls": len(tasks),
-                                   "calls_reaching_arpack": arpack, "ring_arpack_subcheck": RING_ARPACK}
+                                   "calls_reaching_arpack": arpack, "ring_arpack_subcheck": RING_ARPACK,
+                                   "replay_wall_s": wall}
 
 
 def run(ctx):
@@ -422,7 +434,7 @@ def run(ctx):
         jobs.append(dict(module="Builders", cfg=os.path.basename(cfg), cwd=d, label="emit %s" % sc, workers=1))
     nsmall = len(jobs)
     ljobs, lemit = large_jobs(ctx, d)
-    res = ctx.tlc_parallel(jobs + ljobs)
+    res = ctx.tlc_parallel(jobs + ljobs, max_par=14)
     seen = set()
     for i, sc in enumerate(SCOPES[ctx.tier]):
         cases = []
